@@ -75,3 +75,19 @@ Theorem C04_remove_deletes : forall p q txq effq (ts : list (Toxics.toxic * bool
   TxList.tes_after (Reconf.CRestart q txq effq) (TxList.tes_after (Reconf.CDelete p) ts) = TxList.upd_nth q (fun _ => (txq, effq)) (Reconf.remove_nth p ts).
 Proof. exact TxList.remove_deletes. Qed.
 Print Assumptions C04_remove_deletes.
+
+(** operations reach every open connection: an add or update gives up on a connection only when
+    the stage it has to interrupt is closed (its stream has ended there) - never because the stage
+    is busy, for however long (regenerated: the interrupt of AddToxic / UpdateToxic is the plain,
+    unbounded InterruptToxic, and the new stage is connected only after it succeeded) *)
+From TP Require Model.ReconfRun Proofs.ReconfRunProofs.
+Theorem C04_operations_reach_every_open_connection : forall l p w,
+  ReconfRun.interrupt_try l p w = ReconfRun.IFalse ->
+  exists s, nth_error (Timed.l_stubs l) p = Some s /\ Timed.s_closed s = true /\ w = false.
+Proof. exact ReconfRunProofs.interrupt_gives_up_only_on_closed. Qed.
+Print Assumptions C04_operations_reach_every_open_connection.
+
+Theorem C04_operation_code_facts :
+  interrupt_is_unbounded = true /\ ops_use_plain_interrupt = true /\ add_connects_after_interrupt = true.
+Proof. repeat split; reflexivity. Qed.
+Print Assumptions C04_operation_code_facts.
